@@ -24,14 +24,16 @@ struct Cfg {
     feat: usize,
     outfile: bool,
     logfile: bool,
-    /// 0 none, 1 positional, 2 --symbols-path
+    /// 0 none, 1 positional, 2 --symbols-path, 3 --symbols-url (a loopback server that answers 404, the first
+    /// request after `delay_ms`)
     symmode: u8,
     no_interactive: bool,
+    delay_ms: u64,
 }
 impl Cfg {
     fn json(&self) -> Value {
         json!({"mode": MODES[self.mode], "brief": self.brief, "pretty": self.pretty, "features": FEATURES[self.feat], "output_file": self.outfile, "log_file": self.logfile,
-               "symbols": (["none", "positional", "--symbols-path"][self.symmode as usize]), "no_interactive": self.no_interactive})
+               "symbols": (["none", "positional", "--symbols-path", "--symbols-url (404 server)"][self.symmode as usize]), "no_interactive": self.no_interactive, "first_answer_delayed_ms": self.delay_ms})
     }
     fn human(&self) -> bool {
         matches!(self.mode, 0 | 1 | 3)
@@ -57,7 +59,7 @@ fn matrix() -> Vec<Cfg> {
                             for symmode in 0..3u8 {
                                 // --no-interactive alternates over the matrix (both values occur with every mode)
                                 let no_interactive = (v.len() + mode) % 2 == 0;
-                                v.push(Cfg { mode, brief, pretty, feat, outfile, logfile, symmode, no_interactive });
+                                v.push(Cfg { mode, brief, pretty, feat, outfile, logfile, symmode, no_interactive, delay_ms: 0 });
                             }
                         }
                     }
@@ -68,7 +70,7 @@ fn matrix() -> Vec<Cfg> {
     v
 }
 fn spanning() -> Vec<Cfg> {
-    let c = |mode, brief, pretty, feat, outfile, symmode| Cfg { mode, brief, pretty, feat, outfile, logfile: false, symmode, no_interactive: true };
+    let c = |mode, brief, pretty, feat, outfile, symmode| Cfg { mode, brief, pretty, feat, outfile, logfile: false, symmode, no_interactive: true, delay_ms: 0 };
     vec![c(0, false, false, 0, false, 0), c(1, true, false, 2, true, 1), c(2, false, false, 0, false, 2), c(2, false, true, 1, true, 0), c(3, false, true, 2, false, 1), c(3, true, false, 0, true, 2), c(4, false, false, 0, false, 0), c(4, true, false, 1, true, 0)]
 }
 
@@ -181,14 +183,18 @@ enum Expected {
 thread_local! {
     static RT: tokio::runtime::Runtime = tokio::runtime::Builder::new_current_thread().enable_all().build().expect("tokio runtime");
 }
-fn library(path: &Path, with_symbols: bool, feat: usize) -> Expected {
+/// `symbols`: 0 no symbolizer, 1 the corpus symbol directory, 2 a symbolizer that finds nothing (what a
+/// symbol server answering 404 amounts to)
+fn library(path: &Path, symbols: u8, feat: usize) -> Expected {
     let dump = match Minidump::read_path(path) {
         Ok(d) => d,
         Err(_) => return Expected::Unreadable,
     };
     let mut provider = MultiSymbolProvider::new();
-    if with_symbols {
+    if symbols == 1 {
         provider.add(Box::new(Symbolizer::new(simple_symbol_supplier(vec![PathBuf::from(SYMS)]))));
+    } else if symbols == 2 {
+        provider.add(Box::new(Symbolizer::new(simple_symbol_supplier(vec![]))));
     }
     let mut o = match feat {
         0 => ProcessorOptions::stable_basic(),
@@ -267,11 +273,47 @@ fn find_from(hay: &[u8], needle: &[u8], from: usize) -> Option<usize> {
 struct Shared {
     cli: PathBuf,
     inputs: Vec<Input>,
-    cache: Mutex<HashMap<(usize, bool, usize), Expected>>,
+    cache: Mutex<HashMap<(usize, u8, usize), Expected>>,
     dump_cache: Mutex<HashMap<(usize, bool), Option<Vec<Vec<u8>>>>>,
     /// first raw-dump output seen per (input, brief): must not depend on other options
     dump_seen: Mutex<HashMap<(usize, bool), Vec<u8>>>,
     _dir: tempfile::TempDir,
+}
+
+/// A loopback HTTP server that answers every request with 404, the first one only after `delay_ms`
+/// (the listener thread lives until the process ends). Returns its port.
+fn start_404_server(delay_ms: u64) -> u16 {
+    use std::io::{Read, Write};
+    let l = std::net::TcpListener::bind("127.0.0.1:0").expect("bind loopback");
+    let port = l.local_addr().unwrap().port();
+    let first = Arc::new(std::sync::atomic::AtomicBool::new(true));
+    std::thread::spawn(move || {
+        for c in l.incoming() {
+            let Ok(mut c) = c else { continue };
+            let first = first.clone();
+            std::thread::spawn(move || {
+                let _ = c.set_read_timeout(Some(std::time::Duration::from_secs(30)));
+                let mut pending: Vec<u8> = vec![];
+                let mut buf = [0u8; 4096];
+                loop {
+                    while let Some(end) = pending.windows(4).position(|w| w == b"\r\n\r\n") {
+                        pending.drain(..end + 4);
+                        if first.swap(false, std::sync::atomic::Ordering::SeqCst) {
+                            std::thread::sleep(std::time::Duration::from_millis(delay_ms));
+                        }
+                        if c.write_all(b"HTTP/1.1 404 Not Found\r\nContent-Length: 0\r\n\r\n").is_err() {
+                            return;
+                        }
+                    }
+                    match c.read(&mut buf) {
+                        Ok(0) | Err(_) => return,
+                        Ok(n) => pending.extend_from_slice(&buf[..n]),
+                    }
+                }
+            });
+        }
+    });
+    port
 }
 
 fn run_cfg(sh: &Shared, ii: usize, cfg: &Cfg, l: &mut Local) {
@@ -312,6 +354,15 @@ fn run_cfg(sh: &Shared, ii: usize, cfg: &Cfg, l: &mut Local) {
         args.push("--symbols-path".into());
         args.push(SYMS.into());
     }
+    let server = if cfg.symmode == 3 { Some(start_404_server(cfg.delay_ms)) } else { None };
+    if let Some(port) = server {
+        args.push("--symbols-url".into());
+        args.push(format!("http://127.0.0.1:{port}/"));
+        args.push("--symbols-cache".into());
+        args.push(tmp.path().join("symcache").display().to_string());
+        args.push("--symbols-tmp".into());
+        args.push(tmp.path().display().to_string());
+    }
     args.push(inp.path.display().to_string());
     if cfg.symmode == 1 {
         args.push(SYMS.into());
@@ -335,7 +386,7 @@ fn run_cfg(sh: &Shared, ii: usize, cfg: &Cfg, l: &mut Local) {
     let diag: Vec<u8> = if cfg.logfile { [out.stderr.clone(), std::fs::read(&lf).unwrap_or_default()].concat() } else { out.stderr.clone() };
     let cyb = std::fs::read(&cy).ok();
     l.outcome(&format!("{} -> exit {code}", match inp.kind { InputKind::Dump => "dump", _ => "bad-input" }));
-    l.distinct(&(ii, cfg.mode, cfg.brief, cfg.pretty, cfg.feat, cfg.symmode != 0, code, hash_of(&primary)));
+    l.distinct(&(ii, cfg.mode, cfg.brief, cfg.pretty, cfg.feat, cfg.symmode, code, hash_of(&primary)));
 
     let expect_failure = |l: &mut Local, why: &str| {
         if code != 1 {
@@ -390,12 +441,17 @@ fn run_cfg(sh: &Shared, ii: usize, cfg: &Cfg, l: &mut Local) {
         }
         return;
     }
-    let exp = sh.cache.lock().unwrap().get(&(ii, cfg.symmode != 0, cfg.feat)).cloned();
+    let symclass: u8 = match cfg.symmode {
+        0 => 0,
+        3 => 2,
+        _ => 1,
+    };
+    let exp = sh.cache.lock().unwrap().get(&(ii, symclass, cfg.feat)).cloned();
     let exp = match exp {
         Some(e) => e,
         None => {
-            let e = library(&inp.path, cfg.symmode != 0, cfg.feat);
-            sh.cache.lock().unwrap().insert((ii, cfg.symmode != 0, cfg.feat), e.clone());
+            let e = library(&inp.path, symclass, cfg.feat);
+            sh.cache.lock().unwrap().insert((ii, symclass, cfg.feat), e.clone());
             e
         }
     };
@@ -441,7 +497,7 @@ fn main() {
         let mut def = CheckDef::new(
             "C20",
             "exploration",
-            "configuration enumeration on the freshly built binary: the COMPLETE option matrix {no mode, --human, --json, --cyborg P, --dump} x --brief x --pretty x --features {stable-basic, stable-all, unstable-all} x --output-file x --log-file x symbols {none, positional, --symbols-path} (720 configurations, --no-interactive alternating) on 2 inputs (quick) / all inputs (thorough), plus every input (corpus dumps, generated dumps, missing path, empty file, directory, garbage with a valid magic) under 8 spanning configurations, plus the clap-level conflicts, plus every mode with an unwritable primary / cyborg output (/dev/full: must fail with a diagnostic, never exit 0). Oracle: exit status, primary output (stdout or --output-file) == in-process library output for the same options, --cyborg file == JSON, stdout empty with --output-file, rejected combinations / unreadable inputs -> exit 1 + diagnostic + no output, never 101/134/signal; raw dump output contains the library printers in order and does not depend on unrelated options. distinct_nontrivial = distinct (input, mode, brief, pretty, features, symbols, exit status, output hash).",
+            "configuration enumeration on the freshly built binary: the COMPLETE option matrix {no mode, --human, --json, --cyborg P, --dump} x --brief x --pretty x --features {stable-basic, stable-all, unstable-all} x --output-file x --log-file x symbols {none, positional, --symbols-path} (720 configurations, --no-interactive alternating) on 2 inputs (quick) / all inputs (thorough), plus every input (corpus dumps, generated dumps, missing path, empty file, directory, garbage with a valid magic) under 8 spanning configurations, plus the clap-level conflicts, plus every mode with an unwritable primary / cyborg output (/dev/full: must fail with a diagnostic, never exit 0), plus every valid mode x brief x pretty x interactive or not x output file or not with --symbols-url pointing at a loopback server that answers 404 at once or only after 300 ms. Oracle: exit status, primary output (stdout or --output-file) == in-process library output for the same options, --cyborg file == JSON, stdout empty with --output-file, rejected combinations / unreadable inputs -> exit 1 + diagnostic + no output, never 101/134/signal; raw dump output contains the library printers in order and does not depend on unrelated options. distinct_nontrivial = distinct (input, mode, brief, pretty, features, symbols, exit status, output hash).",
         );
         def.assumptions = vec![
             "expected reports are computed in-process by the same library code (release profile with overflow checks); C13 establishes that they are reproducible".into(),
@@ -465,6 +521,31 @@ fn main() {
         let cases = Arc::new(cases);
         let (s1, c1, s2, c2) = (sh.clone(), cases.clone(), sh.clone(), cases.clone());
         def.spaces.push(Space::new("matrix", cases.len() as u64, move |i, l| run_cfg(&s1, c1[i as usize].0, &c1[i as usize].1, l), move |i| json!({"input": s2.inputs[c2[i as usize].0].name, "config": c2[i as usize].1.json()})).chunked(8).wall(120_000));
+        // ---- symbols from a server: every valid mode x brief x pretty x interactive or not x output file or not,
+        // the server answering at once or only after 300 ms (the tool waits on the network while its progress
+        // timer runs)
+        {
+            let mut sv: Vec<Cfg> = vec![];
+            for mode in 0..5 {
+                for brief in [false, true] {
+                    for pretty in [false, true] {
+                        for no_interactive in [false, true] {
+                            for outfile in [false, true] {
+                                for delay_ms in [0u64, 300] {
+                                    let c = Cfg { mode, brief, pretty, feat: 0, outfile, logfile: false, symmode: 3, no_interactive, delay_ms };
+                                    if !c.invalid() {
+                                        sv.push(c);
+                                    }
+                                }
+                            }
+                        }
+                    }
+                }
+            }
+            let sv = Arc::new(sv);
+            let (s5, v1, v2) = (sh.clone(), sv.clone(), sv.clone());
+            def.spaces.push(Space::new("symbol-server", sv.len() as u64, move |i, l| run_cfg(&s5, 0, &v1[i as usize], l), move |i| json!({"input": "corpus/test.dmp", "config": v2[i as usize].json()})).chunked(2).wall(120_000));
+        }
         // clap-level rejections
         let conflicts: Vec<Vec<&'static str>> = vec![vec!["--json", "--human"], vec!["--json", "--dump"], vec!["--human", "--dump"], vec!["--features", "bogus"], vec!["--no-such-flag"], vec![]];
         let conflicts = Arc::new(conflicts);
